@@ -64,6 +64,11 @@ CHECKS = {
     text="Generated C++ libraries (same shape table; customised C_prefix, namespaces) are called through the documented C names with the value battery; the C++ callee must log the passed values (references/strings/bool reconstructed, declaration order, right object serial as this) and the C caller must read back the produced result and outputs; constructors/destructors are followed through a live-object counter at every quiescent point.",
     note="Trusted: reference model and documented C API mapping (vf/drivers/c.py). Functions with std::vector arguments or std::string by-value results have no plain C entry point and are exercised through Fortran (C01).",
     design="DESIGN.md §2 C02"),
+ "C05": dict(
+    technique="real Shroud runs over generated libraries (every shape alone, plus a pairwise-covering array of language x wrapper subset x F_CFI x debug/doxygen/literalinclude/show_splicer_comments x line lengths) and the upstream corpus; every emitted file is compiled by gcc/g++/gfortran (headers on their own as C and C++), Python sources against Python.h, Lua sources against the minilua headers, and everything is linked with the subject library with --no-undefined",
+    text="Held = Shroud exits 0 on every admitted description, every header is self-contained, every source and module compiles in dependency order and the link has no missing or duplicate symbol, for ~210 (quick) / ~700 (thorough) library x configuration builds and the 50 corpus configurations (those with upstream sources).",
+    note="Trusted: gcc/g++/gfortran 12, CPython 3.12 headers, minilua headers (declarations per the Lua 5.3 manual). Unreachable here and reported as such: numpy- and MPI-dependent outputs, corpus inputs without library sources. Warnings are not events. Two known findings (forward.yaml python/lua) are listed.",
+    design="DESIGN.md §2 C05"),
 }
 
 NOT_APPLICABLE = []
